@@ -99,6 +99,7 @@ type v1run struct {
 	divCalls, faultAt             int
 	faultKind                     string
 	faultBad                      bool
+	sendsAfterBad                 int
 	sawErrBad                     bool
 }
 
@@ -259,6 +260,9 @@ func (r *v1run) poll() (v1.VerifEvent, bool) {
 	select {
 	case ev := <-r.evCh:
 		r.atGate = true
+		if ev.Ev == "Send" && r.faultBad {
+			r.sendsAfterBad++ // C15: a division of this or an earlier step was bad, and the discipline still writes to the output
+		}
 		r.emit(sev{E: "S", Ev: ev.Ev, P: ev.Priority, Flag: ev.Flag, Actual: pairsU(ev.Actual), Tactic: pairsU(ev.Tactic),
 			Strategic: pairsU(ev.Strategic), Prios: ev.Priorities})
 		return ev, true
@@ -561,6 +565,9 @@ func (r *v1run) finish() {
 			r.emit(obs{E: "Deadline", Note: "no termination after the divider fault although everything was released"})
 		} else if !r.sawErrBad {
 			r.emit(obs{E: "NoErr", Note: "divider fault injected but Err() closed without ErrDividerBad"})
+		}
+		if r.sendsAfterBad > 0 {
+			r.emit(obs{E: "SentAfterBad", K: r.sendsAfterBad, Note: "items written to the output after a division returned a bad total"})
 		}
 	case r.stopReq || r.cancelReq:
 		if r.stopReq {
